@@ -709,3 +709,104 @@ func (o *CrashOracle) Check(i *Inst, hist []string) []core.Violation {
 	o.viol = nil
 	return out
 }
+
+// SerialOrder orders pool transaction names so that every transaction comes
+// after the producers of what it consumes and before any transaction that
+// overwrites a key version it only read. cyclic reports that no such order exists.
+func SerialOrder(i *Inst, pool []string) (order []string, cyclic bool) {
+	txs := map[string]*pb.Transaction{}
+	for _, n := range pool {
+		if strings.HasPrefix(n, "?") || strings.HasPrefix(n, "ERR") {
+			return pool, false
+		}
+		txs[n] = i.U.Tx(n)
+	}
+	byID := map[string]string{}
+	for n, t := range txs {
+		byID[string(t.Txid)] = n
+	}
+	edges := map[string]map[string]bool{} // a -> b : a before b
+	add := func(a, b string) {
+		if a == b {
+			return
+		}
+		if edges[a] == nil {
+			edges[a] = map[string]bool{}
+		}
+		edges[a][b] = true
+	}
+	for n, t := range txs {
+		writes := map[string]bool{}
+		for _, o := range t.TxOutputsExt {
+			writes[o.Bucket+"/"+string(o.Key)] = true
+		}
+		for _, in := range t.TxInputs {
+			if p, ok := byID[string(in.RefTxid)]; ok {
+				add(p, n)
+			}
+		}
+		for _, in := range t.TxInputsExt {
+			if p, ok := byID[string(in.RefTxid)]; ok {
+				add(p, n)
+			}
+			k := in.Bucket + "/" + string(in.Key)
+			if writes[k] {
+				continue
+			}
+			// n only read k@v: every other tx superseding that same version comes after n
+			for m, t2 := range txs {
+				if m == n {
+					continue
+				}
+				for _, in2 := range t2.TxInputsExt {
+					if in2.Bucket == in.Bucket && bytes.Equal(in2.Key, in.Key) && bytes.Equal(in2.RefTxid, in.RefTxid) && in2.RefOffset == in.RefOffset {
+						w2 := false
+						for _, o2 := range t2.TxOutputsExt {
+							if o2.Bucket == in.Bucket && bytes.Equal(o2.Key, in.Key) {
+								w2 = true
+							}
+						}
+						if w2 {
+							add(n, m)
+						}
+					}
+				}
+			}
+		}
+	}
+	// Kahn, ties by name
+	indeg := map[string]int{}
+	for n := range txs {
+		indeg[n] = 0
+	}
+	for _, bs := range edges {
+		for b := range bs {
+			indeg[b]++
+		}
+	}
+	names := make([]string, 0, len(txs))
+	for n := range txs {
+		names = append(names, n)
+	}
+	sort.Strings(names)
+	done := map[string]bool{}
+	for len(order) < len(names) {
+		progressed := false
+		for _, n := range names {
+			if done[n] || indeg[n] != 0 {
+				continue
+			}
+			done[n] = true
+			order = append(order, n)
+			for b := range edges[n] {
+				indeg[b]--
+			}
+			progressed = true
+			break
+		}
+		if !progressed {
+			return pool, true
+		}
+	}
+	return order, false
+}
